@@ -85,12 +85,14 @@ def expected(n: int, nulls: set, caller: Optional[set], na_action: str):
     return "ok", kept, removed
 
 
-def build(entry: str, formula: str, data, ctx, drop_rows, na_action: str, output: str, override: bool):
+def build(entry: str, formula: str, data, ctx, drop_rows, na_action: str, output: str, override: bool, materializer=None):
     """Run one entry point. `override`: pass the output type as a call-time override of an existing spec/formula."""
     from formulaic import Formula, ModelSpec, model_matrix
     from formulaic.materializers import FormulaMaterializer
 
     kw = {} if drop_rows is None else {"drop_rows": drop_rows}
+    if materializer and entry != "materializer.get_model_matrix":
+        kw["materializer"] = materializer
     if entry == "model_matrix":
         return model_matrix(formula, data, context=ctx, na_action=na_action, output=output, **kw)
     if entry == "Formula.get_model_matrix":
@@ -102,7 +104,7 @@ def build(entry: str, formula: str, data, ctx, drop_rows, na_action: str, output
         spec = ModelSpec.from_spec(Formula(formula), na_action=na_action, output=output)
         return spec.get_model_matrix(data, context=ctx, **kw)
     if entry == "materializer.get_model_matrix":
-        m = FormulaMaterializer.for_data(data)(data, context=ctx)
+        m = (FormulaMaterializer.for_materializer(materializer) if materializer else FormulaMaterializer.for_data(data))(data, context=ctx)
         return m.get_model_matrix(formula, na_action=na_action, output=output, **kw)
     raise ValueError(entry)
 
@@ -120,7 +122,7 @@ def parts_of(mm) -> list:
 
 def part_frame(m, output):
     labels = list(m.model_spec.column_names)
-    arr = numpy.asarray(m, dtype=object)
+    arr = numpy.asarray(m.todense() if output == "sparse" else m, dtype=object)
     if arr.ndim == 1:
         arr = arr.reshape((-1, len(labels)))
     return labels, arr
@@ -131,7 +133,7 @@ def check_config(cfg: dict, tag, tag_eq, ctx_for=lambda tag: None):
     Run one configuration and compare with the expected policy semantics.
     Returns (problems, claims): problems = [(tag, message)] decided on concrete facts; claims = row-identity
     statements about tag cells (z3 terms when the tag is symbolic, bools otherwise).
-    cfg keys: n, z_nulls, w_nulls, a_nulls, index, formula, na_action, caller (list|None), entry, output, override
+    cfg keys: n, z_nulls, w_nulls, a_nulls, index, formula, na_action, caller (list|None), entry, output, override[, materializer]
     """
     n = cfg["n"]
     zs, ws, as_ = set(cfg["z_nulls"]), set(cfg["w_nulls"]), set(cfg["a_nulls"])
@@ -144,7 +146,7 @@ def check_config(cfg: dict, tag, tag_eq, ctx_for=lambda tag: None):
     problems, claims = [], []
     site = f"entry={cfg['entry']},override={cfg['override']},structured={'~' in cfg['formula']},index={cfg['index']},hashed={'hashed' in cfg['formula']}"
     try:
-        mm = build(cfg["entry"], cfg["formula"], df, ctx, caller_arg, cfg["na_action"], cfg["output"], cfg["override"])
+        mm = build(cfg["entry"], cfg["formula"], df, ctx, caller_arg, cfg["na_action"], cfg["output"], cfg["override"], cfg.get("materializer"))
     except Exception as e:
         if verdict == "raise" and isinstance(e, ValueError) and "null" in str(e).lower():
             return problems, claims
